@@ -56,7 +56,7 @@ VARS = {"self": SELF, "F1": FUT, "TOV": ONEOF(EXPR("None"), EXPR("ValueError()")
 contract(f"{RC}::RequestCache._create_identifier", "identifier-format",
          vars={"self": SELF, "p": STR, "n": INT}, call="self._create_identifier(n, p)", raises=[],
          ensures=['result == f"{p}:{n}"'],     # prefix, a colon, the decimal number - nothing else
-         note="the identifier is prefix, ':' and the decimal number, nothing else", tier="thorough")
+         note="the identifier is prefix, ':' and the decimal number, nothing else")
 
 contract(f"{RC}::RequestCache.add", "add", vars=VARS, requires=[R], call="self.add(c)", raises=[], stubs=STUBS,
          ensures=[R,
